@@ -30,10 +30,9 @@ MANIFEST = dict(
          "option named by the error.  Property call histories (BFS + simulation), XML round trips over an alphabet "
          "with & < > \" ' and white space, and as<T> literals are replayed the same way.",
     note="Trusted: TLC, python's ElementTree as the independent reader of the shipped files, the text driver protocol. "
-         "Three-valued literals: forms the documentation does not settle (+5, 5., .5, nan, zero for int+/float+, empty "
-         "multi-choice, comma runs in vectors) admit both outcomes. Not modelled: setAdditionalChoices, user-side "
-         "attributes, duplicate user keys outside lists, list sections without OPTIONAL/REQUIRED that are not supplied, "
-         "HLP/TXT output formats, csg_defaults.xml (not an OptionsHandler description).")
+         "Three-valued literals: forms the documentation does not settle (+5, 5., .5, nan, -0 for int+/float+, empty "
+         "multi-choice, comma runs in vectors) admit both outcomes. Not modelled: duplicate user keys outside lists, list sections without OPTIONAL/REQUIRED that are not supplied, "
+         "HLP/TXT output formats (only their names are documented).")
 
 XTP_XML = os.path.join(vlib.REPO, "xtp", "share", "xtp", "xml")
 
@@ -830,7 +829,39 @@ def replay_one(ctx, exe, work, obj):
     """--replay FILE: re-run exactly one recorded vector / history against the current tree"""
     r = obj["replay"]
     kind = r.get("kind", "")
-    if "h" in r:
+    if "h" in r and r["h"] and "op" in r["h"][0]:          # handler session
+        ddir = os.path.join(work, "sess")
+        os.makedirs(os.path.join(ddir, "subpackages"), exist_ok=True)
+        with open(os.path.join(ddir, "t.xml"), "w") as f:
+            f.write(flat_to_xml(r["desc"]))
+        cmds = ["hs " + json.dumps({"op": "new", "dir": ddir + "/"})]
+        for e in r["h"]:
+            cmds.append("hs " + json.dumps({"op": "extra", "list": sorted(e["list"])} if e["op"] == "extra" else
+                                           {"op": "process", "calc": "t", "user": e["user"]} if e["op"] == "process" else
+                                           {"op": "calcopts", "calc": "t"}))
+        results, crashes = vlib.run_items(exe, [(0, cmds)], args=(work,))
+        v = ("OptionsHandler:session:crash", crashes[0]) if 0 in crashes else None
+        for j, e in enumerate(r["h"]):
+            if v:
+                break
+            out = results[0][j + 1]
+            print("step", j, e["op"], out)
+            v = judge_process(e["exp"], out) if e["op"] == "process" else (judge_calcopts(e["copt"], out) if e["op"] == "calcopts" else None)
+    elif "xml" in r and "crlf" in r:                        # LoadFromXML document
+        results, crashes = vlib.run_items(exe, [(0, ["load " + json.dumps({"xml": r["xml"], "crlf": r["crlf"]})])], args=(work,))
+        out = results.get(0, [[]])[0]
+        print("observed:", out)
+        tree = first(out, "tree")
+        d = ("rejected", str(first(out, "exc"))) if tree is None else tree_cmp(r["exp"], tree)
+        v = ("Property:LoadFromXML:" + d[0], d[1]) if d else path_fault(out, "Property:LoadFromXML")
+    elif "after_del" in r:                                  # bulk
+        results, crashes = vlib.run_items(exe, [(0, ["bulk " + json.dumps({"n": r["n"], "k": r["k"]})])], args=(work,))
+        print("observed:", results.get(0), crashes.get(0), "expected:", r)
+        v = ("Property:bulk:crash", crashes[0]) if 0 in crashes else None
+    elif "q" in r and "src" in r:                           # csg_property query
+        print("re-run by hand: csg_property --file <csg_defaults.xml.in | synthetic> ", r["q"], "expected", r["exp"])
+        v = None
+    elif "h" in r:
         cmds = ["pt " + json.dumps({"op": "new"})]
         for e in r["h"]:
             c = dict(e["call"])
